@@ -1,5 +1,7 @@
 import Compass.Drv.Proto
+import Compass.Drv.JsonProto
 import Compass.Model.Cost
+import Compass.Model.CostIO
 
 /-!
 C07 driver.  Two kinds of case line:
@@ -114,11 +116,203 @@ def apiCase : P String := do
       recOut (m.edgeTraversal e (some (e, ne)) prev mid nxt),   -- reverse_traversal, next edge `ne`
       recOut (m.edgeTraversal e none prev mid nxt)])            -- reverse_traversal, no next edge
 
+
+/-! ### the follow-up streams (see `harness/src/c07_io.rs`) -/
+
+def encF (x : Float) : Json := if x.isFinite then .num "" x.toBits.toNat else .null
+
+def numOfJson : Json → Option Float
+  | .num _ b => some (Float.ofBits b.toUInt64)
+  | _ => none
+
+def ordOut : Ordering → String
+  | .lt => "lt"
+  | .eq => "eq"
+  | .gt => "gt"
+
+def boolOut (b : Bool) : String := if b then "1" else "0"
+
+/-- `agg <sum|mul> <items>`: `agg_iter` over items that are costs or errors -/
+def aggCase : P String := do
+  let agg ← aggP
+  let items ← listOf (optOf float)
+  endOfLine
+  let r := match agg.aggIter items with
+    | some v => floatOut v
+    | none => match firstNone items with
+      | some k => "err " ++ toString k
+      | none => "err ?"
+  let slice := match allSome items with
+    | some cs => floatOut (agg.agg cs)
+    | none => "na"
+  pure (joinSp ["agg", r, slice])
+
+/-- zero of either sign prints as `0` (the sign of an empty `f64` sum depends on the std version) -/
+def zeroCanon (x : Float) : String := if x == 0.0 then floatOut 0.0 else floatOut x
+
+/-- `cost <a> <b> <k> <xs>`: the arithmetic, order and conversions of `unit/cost.rs` -/
+def costCase : P String := do
+  let a ← float
+  let b ← float
+  let k ← float
+  let xs ← listOf float
+  endOfLine
+  pure (joinSp ["cost", floatOut (a + b), floatOut (a - b), floatOut (a * k), floatOut (a / k), floatOut (-a),
+    zeroCanon (xs.foldl (· + ·) 0.0),
+    ordOut (costCmp a b), boolOut (costLt a b), boolOut (costLe a b), boolOut (costCmp a b == .gt),
+    boolOut (costCmp a b != .lt), boolOut (costCmp a b == .eq),
+    floatOut (costMax a b), floatOut (costMin a b), ordOut (reverseCostCmp a b),
+    floatOut (enforceStrictlyPositiveCmp a), floatOut (enforceNonNegativeCmp a),
+    floatOut (enforceStrictlyPositive a), floatOut (enforceNonNegative a),
+    floatOut a,   -- the conversions and Display / serde round trips all return the value itself
+    JsonProto.enc (encF a)])
+
+def featuresP (fuel : Nat) : P (List (FeatureConfig Float)) :=
+  listOf (do
+    let w ← optOf float
+    let v ← optOf (vrate fuel)
+    let n ← optOf (nrate fuel)
+    pure (w, v, n))
+
+def etErrOut : ETErr → String
+  | .network => "network"
+  | .access => "access"
+  | .traversal => "traversal"
+  | .cost => "cost"
+
+/-- `et <agg> <features> <edges> <nVertices> <access> <traverse> <prev> <forward> <trav> <nbr>` -/
+def etCase : P String := do
+  let fuel := (← get).length + 1
+  let agg ← aggP
+  let feats ← featuresP fuel
+  let edges ← listOf (do let s ← nat; let d ← nat; pure (s, d))
+  let nV ← nat
+  let access ← optOf (listOf float)
+  let traverse ← optOf (listOf float)
+  let prev ← listOf float
+  let forward ← bool
+  let trav ← nat
+  let nbr ← optOf nat
+  endOfLine
+  match CostModel.new feats agg with
+  | none => pure "new-err"
+  | some m =>
+    let env : ETEnv Float := { edge := fun e => edges[e]?, vertex := fun v => decide (v < nV),
+                               access := access, traverse := traverse }
+    match m.edgeTraversalE env forward trav nbr prev with
+    | .error e => pure ("err " ++ etErrOut e)
+    | .ok r => pure (joinSp ["ok", floatOut r.1, floatOut r.2, floatOut (edgeRecordTotal r), "display-ok"])
+
+def hexName : P String := JsonProto.str
+
+/-- sort by key (bytewise = by code point for the ASCII names the harness generates) -/
+def sortKvs {β : Type} (kvs : List (String × β)) : List (String × β) :=
+  (kvs.toArray.qsort (fun a b => a.1 < b.1)).toList
+
+/-- `ser <agg> <n> (<name> <feature>)… <state>`: `serialize_cost(state)` and `serialize_cost_info()` -/
+def serCase : P String := do
+  let fuel := (← get).length + 1
+  let agg ← aggP
+  let named ← listOf (do
+    let name ← hexName
+    let w ← optOf float
+    let v ← optOf (vrate fuel)
+    let n ← optOf (nrate fuel)
+    pure (name, (w, v, n)))
+  let state ← listOf float
+  endOfLine
+  let names := named.map Prod.fst
+  match CostModel.new (named.map Prod.snd) agg with
+  | none => pure "new-err"
+  | some m =>
+    let cost := match m.serializeCost names state with
+      | none => "err"
+      | some kvs => joinSp (toString kvs.length :: (sortKvs kvs).map fun p =>
+          JsonProto.hexOfStr p.1 ++ " " ++ JsonProto.enc (encF p.2))
+    let info := match m.serializeCostInfo encF names with
+      | none => "err"
+      | some j => JsonProto.enc j
+    pure (joinSp ["cost", cost, "info", info])
+
+def svcErrOut : ServiceErr → String
+  | .serde => "serde"
+  | .unknownWeights => "unknown-weights"
+  | .newFailed => "new-failed"
+
+/-- `cfg <config json> <query json> <names> <prev> <next> <e> <pe> <ne>`:
+`CostModelBuilder::build(config)`, `CostModelService::build(query, state model)`, then the API -/
+def cfgCase : P String := do
+  let config ← JsonProto.json
+  let query ← JsonProto.json
+  let names ← listOf hexName
+  let prev ← listOf float
+  let nxt ← listOf float
+  let e ← nat
+  let pe ← nat
+  let ne ← nat
+  endOfLine
+  match buildCostService numOfJson config with
+  | none => pure "builder-err"
+  | some svc =>
+    match svc.build numOfJson query names with
+    | .error k => pure ("service-err " ++ svcErrOut k)
+    | .ok m =>
+      let info := match m.serializeCostInfo encF names with
+        | none => "err"
+        | some j => JsonProto.enc j
+      pure (joinSp ["ok", fopt (m.traversalCost e prev nxt), fopt (m.accessCost pe ne prev nxt),
+        fopt (m.costEstimate prev nxt), "info", info])
+
+def rowP {ρ : Type} (p : P ρ) : P (Row ρ) := do
+  let t ← next
+  match t with
+  | "ok" => do let r ← p; pure (.ok r)
+  | "bad" => pure .bad
+  | _ => failure
+
+def csvFileP {ρ : Type} (p : P ρ) : P (CsvFile ρ) := do
+  let present ← bool
+  let lines ← nat
+  let rows ← listOf (rowP p)
+  pure { present := present, lines := lines, rows := rows }
+
+def builderP : Nat → P (NetworkCostRateBuilder Float)
+  | 0 => failure
+  | fuel + 1 => do
+    let t ← next
+    match t with
+    | "e" => do
+      let f ← csvFileP (do let k ← nat; let v ← float; pure (k, v))
+      pure (.edgeLookup f)
+    | "p" => do
+      let f ← csvFileP (do let a ← nat; let b ← nat; let v ← float; pure ((a, b), v))
+      pure (.edgeEdgeLookup f)
+    | "c" => do let bs ← listOf (builderP fuel); pure (.combined bs)
+    | _ => failure
+
+/-- `ncb <builder> <n> (<e> <pe> <ne>)…`: `NetworkCostRateBuilder::build`, then the built rate probed -/
+def ncbCase : P String := do
+  let fuel := (← get).length + 1
+  let b ← builderP fuel
+  let probes ← listOf (do let e ← nat; let pe ← nat; let ne ← nat; pure (e, pe, ne))
+  endOfLine
+  match b.build Float.isFinite with
+  | none => pure "build-err"
+  | some r =>
+    pure (joinSp ("ok" :: probes.map fun (e, pe, ne) =>
+      floatOut (r.traversalCost e) ++ " " ++ floatOut (r.accessCost pe ne)))
+
 def case : P String := do
   let kind ← next
   match kind with
   | "api" => apiCase
   | "ops" => opsCase
+  | "agg" => aggCase
+  | "cost" => costCase
+  | "et" => etCase
+  | "ser" => serCase
+  | "cfg" => cfgCase
+  | "ncb" => ncbCase
   | _ => failure
 
 def run (line : String) : String := Proto.run case line
